@@ -654,10 +654,12 @@ func (e *Eng) externResultFacts(fr *Frame, st *State, fn *ssa.Function, res ssa.
 	v := fr.vals[res]
 	switch name {
 	case "errors.New", "fmt.Errorf", "github.com/pkg/errors.New", "github.com/pkg/errors.Errorf":
-		if iv, ok := v.(*IfaceV); ok {
+		if _, ok := v.(*IfaceV); ok {
 			// a non-nil error value backed by a freshly allocated object (distinct from every earlier one)
 			r := e.newRef(fr, st, "err")
-			e.assume(st, tAnd(tNot(tEq(iv.Ty, bvLit(32, 0))), tEq(iv.V, r)))
+			ty := e.fresh("errtype", sTag)
+			e.assume(st, tNot(tEq(ty, bvLit(32, 0))))
+			fr.vals[res] = &IfaceV{Ty: ty, V: r}
 		}
 	case "github.com/pkg/errors.WithStack", "github.com/pkg/errors.Wrapf", "github.com/pkg/errors.Wrap", "github.com/pkg/errors.WithMessage", "github.com/pkg/errors.WithMessagef":
 		if iv, ok := v.(*IfaceV); ok {
@@ -1026,6 +1028,9 @@ func (e *Eng) evalModSpecVars(fc *FuncContract, m *ModSpec, args []Val, vars map
 		// the expression itself is interface-typed (no boxing happened)
 		obj = iv
 	}
+	if m.Kind == "object" {
+		return []modTarget{{kind: "object", ref: ghostKey(obj)}}
+	}
 	if inner, ok := obj.(*IfaceV); ok {
 		// interface-typed expression: use its dynamic value reference
 		switch m.Kind {
@@ -1098,6 +1103,14 @@ func (e *Eng) applyMod(fr *Frame, st, old *State, instr ssa.Instruction, fc *Fun
 		switch t.kind {
 		case "all":
 			e.havocAll(st, disp)
+		case "object":
+			// any field of that object (whatever its dynamic type): every field heap at that reference
+			for _, n := range e.sortedHeapNames() {
+				if strings.HasPrefix(n, "F|") && strings.HasPrefix(e.heapNames[n], "(Array "+sRef+" ") {
+					st.heap[n] = app("store", st.heap[n], t.ref, e.fresh("modobj", elemSortOf(e.heapNames[n])))
+					e.modified[n] = true
+				}
+			}
 		case "field", "deref":
 			nv := e.freshVal(t.typ, "mod")
 			e.assume(st, e.wf(t.typ, nv))
@@ -1247,9 +1260,13 @@ func (e *Eng) allowed(f frame, w writeDesc) (T, bool) {
 		}
 	}
 	if w.ref != "" && w.kind != "global" && w.kind != "ghost0" {
-		ok = append(ok, app("bvuge", e.birth(w.ref), f.since))
+		// objects created after the frame was entered; a write through the null reference panics before it writes
+		ok = append(ok, app("bvuge", e.birth(w.ref), f.since), tEq(w.ref, null))
 	}
 	for _, t := range f.targets {
+		if t.kind == "object" && w.kind == "field" {
+			ok = append(ok, tEq(t.ref, w.ref))
+		}
 		switch w.kind {
 		case "field":
 			if t.kind == "field" && t.ptr.Kind == pField && t.ptr.Fam == w.fam {
@@ -1281,6 +1298,10 @@ func (e *Eng) allowed(f frame, w writeDesc) (T, bool) {
 		case "ghost0":
 			if t.kind == "ghost0" && t.fam == w.fam {
 				return "", true
+			}
+		case "object":
+			if t.kind == "object" {
+				ok = append(ok, tEq(t.ref, w.ref))
 			}
 		}
 	}
@@ -1376,6 +1397,8 @@ func (e *Eng) callFrameCheck(fr *Frame, st *State, in ssa.Instruction, t *modTar
 		return
 	}
 	switch t.kind {
+	case "object":
+		e.checkWrite(fr, st, writeDesc{kind: "object", ref: t.ref}, in, "object written by "+callee, "")
 	case "field", "deref":
 		e.checkFrameStore(fr, st, t.ptr, in)
 	case "elems":
